@@ -206,8 +206,33 @@ Fixpoint remove (fuel : nat) (s : fsys) (p : path) (tested : path) {struct fuel}
       end
   end.
 
-(* RemoveWithContextAndExclusionPatterns(ctx, dir, patterns...) = removeWithExclusionPatterns(ctx, dir, dir, patterns...) *)
-Definition remove_top (fuel : nat) (s : fsys) (p : path) : fsys * res := remove fuel s p p.
+(* The same function when the caller spells the path with a TRAILING SEPARATOR (or "/.") and the path is not cleaned
+   first: the OS then follows a final link in every resolution of that path, Lstat included, so the link branch is
+   never taken, and unlink / rmdir of "link/" fail with ENOTDIR.  (Entries below are reached through Join, which cleans.) *)
+Definition remove_trailing (fuel : nat) (s : fsys) (p : path) (tested : path) : fsys * res :=
+  match fuel with
+  | O => (s, Err EFuel)
+  | S f =>
+      if negb (exists_ s p) then (s, Ok) else
+      match is_dir s p with
+      | None => (s, Err ENotFound)
+      | Some isDir =>
+          let '(s1, r1) := if isDir && negb (is_empty s p) then clean_dir_with (remove f) s p else (s, Ok) in
+          match r1 with
+          | Err e => (s1, Err e)
+          | Ok =>
+              if isDir && negb (is_empty s1 p) then (s1, Ok) else
+              if cancelled then (s1, Err ECancelled) else
+              if excl_path tested then (s1, Ok) else
+              if is_link (lstat s1 p) then (s1, Err EInvalid) else os_remove s1 p
+          end
+      end
+  end.
+
+(* RemoveWithContextAndExclusionPatterns(ctx, dir, patterns...) = removeWithExclusionPatterns(ctx, dir, dir, patterns...);
+   [trailing]: the caller's spelling of dir ends in a separator or in "/." *)
+Definition remove_top (trailing : bool) (fuel : nat) (s : fsys) (p : path) : fsys * res :=
+  if negb (rm_path_cleaned k) && trailing then remove_trailing fuel s p p else remove fuel s p p.
 Definition clean_dir (fuel : nat) (s : fsys) (p : path) : fsys * res := clean_dir_with (remove fuel) s p.
 End Removal.
 
@@ -349,6 +374,7 @@ Inductive opkind := OpRm | OpClean | OpGc.
 Record case := mkCase {
   c_before : fsys;             (* Lstat snapshot of the whole sandbox before the call, root ([], EDir) included *)
   c_root : path;               (* the path handed to the library *)
+  c_trailing : bool;           (* ... spelled with a trailing separator or "/." *)
   c_op : opkind;
   c_pats : list name;          (* non-empty literal exclusion patterns (no separator, no regexp operator) *)
   c_cancelled : bool;
@@ -398,7 +424,7 @@ Definition run_case (c : case) : fsys * res :=
   let en := name_excluded (c_pats c) in
   let ep := path_excluded (c_pats c) in
   match c_op c with
-  | OpRm => remove_top en ep Gen.rm (c_cancelled c) fuel (c_before c) (c_root c)
+  | OpRm => remove_top en ep Gen.rm (c_cancelled c) (c_trailing c) fuel (c_before c) (c_root c)
   | OpClean => clean_dir en ep Gen.rm (c_cancelled c) fuel (c_before c) (c_root c)
   | OpGc => garbage_collect Gen.rm Gen.gc (c_cancelled c)
               (fun q => c_all_old c || existsb (path_eqb q) (c_old c)) (fun _ ns => ns) fuel (c_before c) (c_root c)
